@@ -5,6 +5,7 @@ import DracoProofs.Builders
 import DracoProofs.BuildersSpec
 import DracoProofs.StripsGeometry
 import DracoModel.C14Check
+import DracoProofs.C14Verify
 import DracoProps.C13
 /-
   C14 — mesh-building and clean-up utilities preserve the described geometry.
@@ -46,6 +47,12 @@ import DracoProps.C13
                                      `c13_opposite_symm` with the corner table model).
   Builders
     * `buildMesh_describes`, `buildPointCloud_describes`.
+  The executable oracle of the check (DracoModel/C14Verify.lean, evaluated by tools/props/C14.py on the
+  IMPLEMENTATION's result) demands no more than what is proved of the model:
+    * `oracle_accepts_dedupValues`, `oracle_accepts_dedupPointIds`, `oracle_accepts_dedupBoth`,
+      `oracle_accepts_buildMesh`, `oracle_accepts_buildPointCloud`: every demanded clause evaluates to
+      `true` on (input, model's result) for every valid / well-formed input.  (Not proved for the
+      clean-up and strip clauses.)
 -/
 namespace Draco
 
@@ -511,6 +518,47 @@ theorem buildPointCloud_unsupported_counterexample :
       { numPoints := 2, dedup := true,
         atts := [({ attType := 0, dataType := 7, numComponents := 1 }, [List.replicate 8 0, List.replicate 8 0])] }
       = false := by decide
+
+/-! ## the oracle of the check is implied by the theorems above -/
+
+/-- every clause the check demands of `DeduplicateAttributeValues` holds of the model's result -/
+theorem oracle_accepts_dedupValues (g : Geometry) (hv : g.valid = true) :
+    (C14.demandedDedupValues g g.dedupValues).allTrue :=
+  C14.demandedDedupValues_model g hv (fun hn => dedupValues_no_duplicates g hv hn)
+
+example : (C14.demandedDedupValues exDedup exDedup.dedupValues).allTrue :=
+  oracle_accepts_dedupValues exDedup (by decide)
+
+/-- … of `DeduplicatePointIds` -/
+theorem oracle_accepts_dedupPointIds (g : Geometry) (hv : g.valid = true) :
+    (C14.verifyDedupPointIds g g.dedupPointIds).allTrue :=
+  C14.verifyDedupPointIds_model g hv
+
+example : (C14.verifyDedupPointIds exPoints exPoints.dedupPointIds).allTrue :=
+  oracle_accepts_dedupPointIds exPoints (by decide)
+
+/-- … of both in sequence -/
+theorem oracle_accepts_dedupBoth (g : Geometry) (hv : g.valid = true) :
+    (C14.demandedDedupBoth g g.dedupValues.dedupPointIds).allTrue :=
+  C14.demandedDedupBoth_model g hv (fun hn => dedupValues_no_duplicates g hv hn)
+
+example : (C14.demandedDedupBoth exSoup exSoup.dedupValues.dedupPointIds).allTrue :=
+  oracle_accepts_dedupBoth exSoup (by decide)
+
+/-- … of `TriangleSoupMeshBuilder` -/
+theorem oracle_accepts_buildMesh (s : MeshSpec) (hw : s.wellFormed = true) :
+    (C14.demandedBuildMesh s (buildMesh s)).allTrue :=
+  C14.demandedBuildMesh_model s hw (fun hn => dedupValues_no_duplicates s.soup (s.soup_valid hw) hn)
+
+example : (C14.demandedBuildMesh exSpec (buildMesh exSpec)).allTrue := oracle_accepts_buildMesh exSpec (by decide)
+
+/-- … of `PointCloudBuilder` (with and without deduplication) -/
+theorem oracle_accepts_buildPointCloud (s : PointCloudSpec) (hw : s.wellFormed = true) :
+    (C14.demandedBuildPointCloud s (buildPointCloud s)).allTrue :=
+  C14.demandedBuildPointCloud_model s hw (fun hn => dedupValues_no_duplicates s.raw (s.raw_valid hw) hn)
+
+example : (C14.demandedBuildPointCloud exCloud (buildPointCloud exCloud)).allTrue :=
+  oracle_accepts_buildPointCloud exCloud (by decide)
 
 /-- the hypothesis of `strips_describe` is clause I1 of C13, proved for every input -/
 theorem strips_createSymm : Strips.CreateSymm :=
